@@ -1,0 +1,15 @@
+//go:build verif
+
+// Contracts for the deductive verifier in /verif (govc); comments only.
+
+package types
+
+// generated size functions: only non-negativity is used by callers so far
+//@ func Packet.SizeVT
+//@   property C06 C07 C19 C20
+//@   trusted generated code; body verified separately for safety under C20
+//@   ensures result >= 0
+//@ func Stat.SizeVT
+//@   property C19 C20
+//@   trusted generated code; contains a map-range sum
+//@   ensures result >= 0
